@@ -29,10 +29,10 @@ import (
 
 // ---------------------------------------------------------------- seam B ----
 
-const nLetters = 14
+const nLetters = 15
 
 var letterNames = []string{"SETTINGS{3:100}", "SETTINGS{0x99:7,4:1048576}", "SETTINGS-ACK", "WINDOW_UPDATE(0,15663105)", "WINDOW_UPDATE(open,7)",
-	"PRIORITY(next+4)", "PRIORITY(1,excl)", "HEADERS", "HEADERS+prio(order2)", "HEADERS+CONTINUATION", "HEADERS(open)", "TRAILERS", "DATA(end)", "PING"}
+	"PRIORITY(next+4)", "PRIORITY(1,excl)", "HEADERS", "HEADERS+prio(order2)", "HEADERS+CONTINUATION", "HEADERS(open)", "TRAILERS", "DATA(end)", "PING", "WINDOW_UPDATE(closed,9)"}
 
 type result struct {
 	stream uint32
@@ -174,6 +174,14 @@ func (s *sess) apply(l int) bool {
 		s.open = 0
 	case 13:
 		c.Send(h2wire.Ping(false, [8]byte{1, 2, 3}))
+	case 14:
+		// a WINDOW_UPDATE for a stream that is already closed (request answered): legal, ignored for flow control, and
+		// still a WINDOW_UPDATE frame the client sent
+		if s.next == 1 || s.open == 1 {
+			return false
+		}
+		c.Send(h2wire.WindowUpdate(1, 9))
+		s.ref.OnWindowUpdate(9)
 	}
 	return true
 }
@@ -427,17 +435,31 @@ func seamBDeep(t *testing.T, rep *ev.Report, shard, of int, from, to int) {
 			}
 			mineFound = append(mineFound, found{hist, key})
 		}
-		payload, _ := json.Marshal(mineFound)
+		// a shard that has seen enough violations says so at the barrier, and every shard stops after this level:
+		// leaving alone would keep the others waiting for it
+		payload, _ := json.Marshal(struct {
+			Found []found `json:"found"`
+			Stop  bool    `json:"stop"`
+		}{mineFound, rep.NumViolations() > 20})
 		parts, err := ev.Exchange(name, shard, of, payload)
 		if err != nil {
 			rep.HarnessError("deep search: %v", err)
 			return false
 		}
 		var merged []found
+		stop := false
 		for _, p := range parts {
-			var fs []found
-			json.Unmarshal(p, &fs)
-			merged = append(merged, fs...)
+			var part struct {
+				Found []found `json:"found"`
+				Stop  bool    `json:"stop"`
+			}
+			json.Unmarshal(p, &part)
+			merged = append(merged, part.Found...)
+			stop = stop || part.Stop
+		}
+		if stop {
+			rep.NotExhaustive("deep search stopped at " + name + ": a shard has reported more than 20 violations")
+			return false
 		}
 		sort.Slice(merged, func(i, j int) bool { return fmt.Sprint(merged[i].H) < fmt.Sprint(merged[j].H) })
 		frontier = nil
@@ -463,9 +485,6 @@ func seamBDeep(t *testing.T, rep *ev.Report, shard, of int, from, to int) {
 			return
 		}
 		rep.SetMax("deep_search_depth", int64(depth))
-		if rep.NumViolations() > 20 {
-			return
-		}
 	}
 	rep.SetMax("deep_distinct_states", int64(len(seen)))
 	if shard == 0 {
@@ -604,7 +623,7 @@ func TestCheck(t *testing.T) {
 	rep := ev.New("C03", "model_checking")
 	defer rep.Write()
 	shard, of := mc.ShardFromEnv()
-	rep.Info["rule"] = "seam B: every history of the stated depth over 14 client-frame letters, replayed on a fresh real http2 serverConn with the real header injector (value must equal the reference fingerprint of the history at a point not earlier than the request's own HEADERS); seam A: Marshal on all constructed records (settings lists<=3 x 9 WU values x priority lists<=4 x 8 limits; header lists<=4 over 6 names); seam C: CLI limit wiring"
+	rep.Info["rule"] = "seam B: every history of the stated depth over 15 client-frame letters, replayed on a fresh real http2 serverConn with the real header injector (value must equal the reference fingerprint of the history at a point not earlier than the request's own HEADERS); seam A: Marshal on all constructed records (settings lists<=3 x 9 WU values x priority lists<=4 x 8 limits; header lists<=4 over 6 names); seam C: CLI limit wiring"
 	rep.Assume("reference h2fpref and client h2wire are independent of pkg/http2 and pkg/metadata", "WINDOW_UPDATE part compared numerically ('5' and '05' both denote increment 5; '00' required when none)")
 	seamA(rep, shard, of)
 	if shard == 0 {
